@@ -155,7 +155,7 @@ fn run_history_inner(cap: usize, start: usize, mode: Mode, hist: u128, len: usiz
 
 /// soak probe: one long deterministic interleaving (bursts of varying length, always inside the
 /// boundary) on a single fork; by_ref re-split every 97 steps, then by_rc for the second half
-fn soak(cap: usize, steps: usize) -> Option<(String, String)> {
+fn soak(cap: usize, steps: usize, pattern: usize) -> Option<(String, String)> {
     let (src, c) = source();
     let mut fork = src.fork(Bounded::from(vec![-1.0f64; cap]));
     let mut r = Ref::default();
@@ -164,8 +164,18 @@ fn soak(cap: usize, steps: usize) -> Option<(String, String)> {
         // bursts: A for a while, then B for a while, lengths cycling through 1..=2*cap+1; for the
         // 16-bit boundary capacities: A runs a full capacity ahead, B catches up, B runs a full
         // capacity ahead, A catches up, and so on
-        let burst = if cap >= 1000 { cap } else { 1 + (t / 7) % (2 * cap + 1) };
-        let want = if cap >= 1000 { [0, 1, 1, 0][(t / burst) % 4] } else { (t / burst) % 2 };
+        // (pattern 1, large capacities only: two bursts of a third of the capacity for A, one for B, so
+        // that the lead hovers just below the capacity while the ring's start travels round the storage)
+        let burst = if cap >= 1000 { if pattern == 1 { cap / 3 + 1 } else { cap } } else { 1 + (t / 7) % (2 * cap + 1) };
+        let want = if cap >= 1000 {
+            if pattern == 1 {
+                [0, 0, 1][(t / burst) % 3]
+            } else {
+                [0, 1, 1, 0][(t / burst) % 4]
+            }
+        } else {
+            (t / burst) % 2
+        };
         let mut p = r.pos;
         p[want] += 1;
         if p[0].abs_diff(p[1]) <= cap {
@@ -294,7 +304,7 @@ fn main() {
     if let Some(v) = ctx.replay_case() {
         let _guard_scope = guard::scoped(&v.to_string());
         if v["sys"] == "fork_soak" {
-            ctx.finish_replay(soak(v["cap"].as_u64().unwrap_or(1) as usize, v["steps"].as_u64().unwrap_or(1000) as usize).map(|e| e.1));
+            ctx.finish_replay(soak(v["cap"].as_u64().unwrap_or(1) as usize, v["steps"].as_u64().unwrap_or(1000) as usize, v["pattern"].as_u64().unwrap_or(0) as usize).map(|e| e.1));
         }
         if v["sys"] == "fork_ctor" {
             ctx.finish_replay(ctor_case(v["cap"].as_u64().unwrap_or(1) as usize, v["start"].as_u64().unwrap_or(0) as usize, v["len"].as_u64().unwrap_or(0) as usize).map(|e| e.1));
@@ -406,22 +416,23 @@ fn main() {
         let _guard_scope = guard::scoped(&json!({"sys":"fork_soak","cap":cap,"steps":soak_steps}).to_string());
         ctx.add_evals(soak_steps as u64);
         ctx.add_transitions(soak_steps as u64);
-        if let Some((k, m)) = soak(cap, soak_steps) {
-            ctx.violation(&k, json!({"sys":"fork_soak","cap":cap,"steps":soak_steps}), m, Some(&|| soak(cap, soak_steps).map(|e| e.1)));
+        if let Some((k, m)) = soak(cap, soak_steps, 0) {
+            ctx.violation(&k, json!({"sys":"fork_soak","cap":cap,"steps":soak_steps}), m, Some(&|| soak(cap, soak_steps, 0).map(|e| e.1)));
         }
     }
     // 16-bit boundary probes: the lead reaches a full capacity of 2^16 +- 1 frames
     let big: Vec<usize> = vec![1024, 4096, 44100, 48000, 65535, 65536, 65537];
-    big.par_iter().for_each(|&cap| {
+    let bigjobs: Vec<(usize, usize)> = big.iter().flat_map(|&c| [(c, 0usize), (c, 1)]).collect();
+    bigjobs.par_iter().for_each(|&(cap, pattern)| {
         let steps = 9 * cap + 200;
-        let case = json!({"sys":"fork_soak","cap":cap,"steps":steps});
+        let case = json!({"sys":"fork_soak","cap":cap,"steps":steps,"pattern":pattern});
         let _guard_scope = guard::scoped(&case.to_string());
         ctx.add_evals(steps as u64);
-        if let Some((k, m)) = soak(cap, steps) {
-            ctx.violation(&k, case, m, Some(&|| soak(cap, steps).map(|e| e.1)));
+        if let Some((k, m)) = soak(cap, steps, pattern) {
+            ctx.violation(&k, case, m, Some(&|| soak(cap, steps, pattern).map(|e| e.1)));
         }
     });
-    ctx.rule("16-bit boundary and audio-typical capacities 1024, 4096, 44100, 48000, 65535, 65536, 65537: one interleaving of 9 x capacity pulls in which each branch in turn runs a full capacity ahead and the other catches up (by_ref re-split every 97 steps, then by_rc), same checks after every pull");
+    ctx.rule("16-bit boundary and audio-typical capacities 1024, 4096, 44100, 48000, 65535, 65536, 65537: two interleavings of 9 x capacity pulls: each branch in turn a full capacity ahead while the other catches up; and bursts of a third of the capacity, two for A and one for B, so that the lead hovers just below the capacity while the ring's start travels round the storage (by_ref re-split every 97 steps, then by_rc), same checks after every pull");
     ctx.rule(&format!("soak probes: one deterministic interleaving of {soak_steps} pulls (bursts of cycling length, always inside the boundary) per capacity in 1,2,3,5,8,48,64,96 on a single fork: by_ref re-split every 97 steps for the first half, by_rc for the second (single executions, labelled)"));
     ctx.set("exhaustive", json!(true));
     ctx.set("exhaustive_scope", json!(format!("every in-boundary interleaving up to length {len} for capacities 1..=4 (unmerged); the merged run reaches a fixpoint of (lead, ring phase) and so covers longer histories under the stated abstraction")));
